@@ -286,7 +286,7 @@ fn op_kind(op: &Op) -> String {
         Op::Empty(k) => format!("AddBlock*{}", k),
         Op::Disconnect(k) => format!("RemoveBlock*{}", k),
         Op::Restart => "Restart".into(),
-        Op::Allow(k) => ["add_allowlist", "add_allowlist", "set_allowlist", "remove_allowlist", "remove_allowlist"][*k as usize % 5].into(),
+        Op::Allow(k) => ["add_allowlist", "add_allowlist", "set_allowlist", "remove_allowlist", "remove_allowlist", "remove_allowlist", "remove_allowlist"][*k as usize % 7].into(),
     }
 }
 
@@ -385,7 +385,7 @@ impl Model for NodeModel {
         v.push(Op::Restart);
         v.push(Op::Heartbeat);
         if self.cfg.monitors && self.cfg.scen == Scen::Lifecycle {
-            for k in 0..5u8 {
+            for k in 0..7u8 {
                 v.push(Op::Allow(k));
             }
         }
@@ -557,7 +557,10 @@ impl Model for NodeModel {
                         1 => node.add_allowlist(&[a2, bad]),
                         2 => node.set_allowlist(&[a3, bad]),
                         3 => node.remove_allowlist(&[a1, bad]),
-                        _ => node.remove_allowlist(&[a1]),
+                        4 => node.remove_allowlist(&[a1]),
+                        // several entries in one request, the last one not on the list / repeated
+                        5 => node.remove_allowlist(&[a1, a3]),
+                        _ => node.remove_allowlist(&[a1.clone(), a1]),
                     }
                     .map_err(|e| status_kind(&e))
                 });
